@@ -11,7 +11,7 @@ def allowOf (script : String) (ns : String) : Bool :=
 
 /-- `C20 <routeHex> <hdr> <script> <reqNs>`: the answer of the handler's gates, from the regenerated table -/
 def handleC20 (toks : List String) : String :=
-  match toks with
+  match toks.take 4 with
   | [route, hdr, script, reqNs] =>
     match uiRoutes.find? (fun r => r.path == unhex route) with
     | none => "bad-op"
@@ -26,9 +26,10 @@ def templatePaths : List String := ["/katib/add_template/", "/katib/delete_templ
 /-- the property on an observed run: `status=<n> trace=<ev,..> respns=<ns,..>` with events `sar:<ns>:<0/1>` and
     `data:<verb>:<kind>:<ns>` -/
 def oracleLineC20 (toks out : List String) : String :=
-  match toks with
+  match toks.take 4 with
   | [route, hdr, _script, _reqNs] =>
     let path := unhex route
+    let expectedUser := toks.getD 4 ""
     let get (k : String) : String := ((out.find? (·.startsWith (k ++ "="))).map (fun t => (t.drop (k.length + 1)).toString)).getD ""
     let status := (get "status").toNat?.getD 0
     let evs := if get "trace" == "" || get "trace" == "-" then [] else (get "trace").splitOn ","
@@ -38,7 +39,11 @@ def oracleLineC20 (toks out : List String) : String :=
     let step (st : List String × Bool × Option String) (ev : String) : List String × Bool × Option String :=
       let (allowed, denied, bad) := st
       match ev.splitOn ":" with
-      | ["sar", ns, a] => if a == "1" then (ns :: allowed, denied, bad) else (allowed, true, bad)
+      | "sar" :: ns :: a :: rest =>
+        -- the review must be made for the user named by the identity header (after the configured prefix)
+        if bad.isNone && expectedUser != "" && rest.head?.isSome && rest.head? != some expectedUser then
+          (allowed, denied, some s!"review-issued-for-another-user {(rest.headD "")}")
+        else if a == "1" then (ns :: allowed, denied, bad) else (allowed, true, bad)
       | ["data", _verb, kind, ns] =>
         if kind == "Namespace" then st
         else if bad.isSome then st
